@@ -277,6 +277,10 @@ def message_texts(rng, thorough):
             fields = ['MSH', msh2, 'A', 'B', 'C', 'D', '20200101', '', mt, '1', 'P']
             if header == 'own':
                 fields.append(v)
+            elif header == 'own-comp' and v == '2.1':
+                # MSH-12 of v2.1 is NM: blanks and further components go through the numeric layer (C13's model), which
+                # the message-level model used here does not include - the plain version is written instead
+                fields.append(v)
             elif header == 'own-comp':
                 fields.append(' ' + v + c + 'USA' + c + 'x ')
             elif header == 'unsupported':
